@@ -236,8 +236,8 @@ func init() {
 func init() {
 	addSpec(&propSpec{
 		ID:          "C07",
-		Rule:        "inputs: random bytes (with and without a plausible magic/header), every structural bit flip and 150 seeded mutants of each seed frame (re-used from C05 without an oracle), 10 families of grammar-built frames with hostile fields (block size 2^31-1, stored 2^31-1, content size 2^64-1, block just above the maximum, gigantic literal / match lengths, skippable length 2^32-1, legacy oversized blocks, 5000 empty blocks), first-word sweep (all 256 words 0x184D2Axx, every 1- and 2-bit neighbour of the magics, seeded random words), skippable frames in front of valid frames (all 16 magics, lengths 0..70000), and streamed repetitions of one field 10M (thorough 25M) times: legacy magic, skippable frames, empty stored blocks, one-byte blocks. Each with concurrency 1 and 4 through Read and WriteTo, in child processes. Monitors: panic, child death (stack overflow, fault), runaway loop / no progress, deadlock state, peak memory (RSS high-water mark and memory obtained from the OS) against 64 MiB + (3*concurrency + 4 + 2*GOMAXPROCS) x the block maximum the input declares (the GOMAXPROCS term covers sync.Pool's per-P caches), ErrInvalidFrame for non-magics, exact skipping for the 16 skippable magics. A cell is (input family, outcome, concurrency, read mode).",
-		Assumptions: append([]string{"'never blocks forever' is decided as bounded progress: sources are finite and budgeted; a hang shows up as the runtime's deadlock report, a budget overrun or a watchdog dump in a deadlock state", "memory monitor: RSS high-water mark per case and runtime.MemStats.Sys growth; allocations that are neither touched nor reserved from the OS are invisible"}, baseAssumptions...),
+		Rule:        "inputs: random bytes (with and without a plausible magic/header), every structural bit flip and 150 seeded mutants of each seed frame (re-used from C05 without an oracle), 10 families of grammar-built frames with hostile fields (block size 2^31-1, stored 2^31-1, content size 2^64-1, block just above the maximum, gigantic literal / match lengths, skippable length 2^32-1, legacy oversized blocks, 5000 empty blocks), first-word sweep (all 256 words 0x184D2Axx, every 1- and 2-bit neighbour of the magics, seeded random words), skippable frames in front of valid frames (all 16 magics, lengths 0..70000), and streamed repetitions of one field 10M (thorough 25M) times: legacy magic, skippable frames, empty stored blocks, one-byte blocks. Each with concurrency 1 and 4 through Read and WriteTo, in child processes. Monitors: panic, child death (stack overflow, fault), runaway loop / no progress, deadlock state, allocation profile (no allocation made directly by library code larger than 2 x the block maximum the input declares + 256 KiB), goroutine stack growth (<= 64 MiB), peak RSS as an observation, ErrInvalidFrame for non-magics, exact skipping for the 16 skippable magics. A cell is (input family, outcome, concurrency, read mode).",
+		Assumptions: append([]string{"'never blocks forever' is decided as bounded progress: sources are finite and budgeted; a hang shows up as the runtime's deadlock report, a budget overrun or a watchdog dump in a deadlock state", "memory monitor: the runtime allocation profile at sampling rate 1 attributes every heap allocation to its call stack; only allocations whose first non-runtime frame is library code are judged (a caller-supplied writer growing its buffer is not the library); goroutine stacks are watched through MemStats.StackInuse"}, baseAssumptions...),
 		Watchdog:    func(tier string) int { return 1800 },
 		Require: func(rs *runState) string {
 			if rs.counters["repetition_runs"] < 10 {
